@@ -18,6 +18,9 @@ Open Scope Z_scope.
       6 KmerEncoding(enc, w): for every window of every row (in order)  out row = encode(text) :: to_string(that code)
       7 get_motif_scores(rows, PWM.from_counts(..)) with a REAL-valued matrix, compared with a tolerance:
         k_cols = round(matrix * 2^20), out = round(scores * 2^20), tolerance w + 1 units (labelled float test)
+      8 count_encoded(get_kmers(rows, w).ravel(), weights=k_pat)   out = [weighted counts] (one integer weight per k-mer)
+      9 count_kmers(rows, 1) where row_i = k_rows_i repeated k_pat_i times (more than 10^6 letters in total; only the
+        patterns and repetition numbers are handed to Coq)            out = [counts]
    k_kind: 0 = a ragged collection (fresh array, non-contiguous view, or one sequence as a 1-d array);
            2 = equal-length sequences as a dense 2-d EncodedArray with the alphabet encoding;
            3 = the same, un-encoded (ASCII) *)
@@ -56,6 +59,7 @@ Definition rows_close (tol : Z) (a b : list (list Z)) : bool :=
   && all_true (map (fun '(x, y) => (len x =? len y)
                                    && all_true (map (fun '(u, v) => Z.abs (u - v) <=? tol) (combine x y)))
                    (combine a b)).
+Definition all_windows (c : case) : list (list Z) := concat (map (windows (wn c)) (k_rows c)).
 Definition in_domain (c : case) : bool :=
   (2 <=? nA c) && nodupb (k_alpha c) && forallb (forallb (fun x => (0 <=? x) && (x <? nA c))) (k_rows c)
   && (1 <=? k_k c) && (k_k c <=? k_w c) && (k_w c <=? 31) && (k_w c <=? len (concat (k_rows c)))
@@ -64,11 +68,12 @@ Definition in_domain (c : case) : bool :=
      | 2 => len (k_pat c) =? k_w c
      | 3 | 7 => (len (k_cols c) =? k_w c) && forallb (fun col => len col =? nA c) (k_cols c)
      | 1 => true
+     | 8 => (k_k c =? k_w c) && (len (k_pat c) =? len (all_windows c))
+     | 9 => (k_k c =? k_w c) && (k_w c =? 1) && (len (k_pat c) =? len (k_rows c)) && forallb (fun r => 0 <=? r) (k_pat c)
      | _ => k_k c =? k_w c
      end
   && kind_ok c.
 
-Definition all_windows (c : case) : list (list Z) := concat (map (windows (wn c)) (k_rows c)).
 (* a label is right when it has k letters of the alphabet whose little-endian value is its index *)
 Definition index_in (alpha : list Z) (b : Z) : Z :=
   match positions b alpha with i :: _ => i | [] => -1 end.
@@ -91,6 +96,8 @@ Definition spec_ok (c : case) : bool :=
   | 5 => zll_eqb (k_out c) (map (bincount (nA c ^ k_w c)) (spec_kmers (nA c) (wn c) (k_rows c))) && labels_ok c
   | 6 => zll_eqb (k_out c) (map (fun win => le_value (nA c) win :: text_of (k_alpha c) win) (all_windows c))
   | 7 => rows_close (k_w c + 1) (k_out c) (spec_motif (k_cols c) (k_rows c))
+  | 8 => zll_eqb (k_out c) [wbincount (nA c ^ k_w c) (concat (spec_kmers (nA c) (wn c) (k_rows c))) (k_pat c)] && labels_ok c
+  | 9 => zll_eqb (k_out c) [big_counts (nA c) (k_rows c) (k_pat c)] && labels_ok c
   | _ => false
   end.
 
@@ -113,5 +120,9 @@ Definition model_ok (c : case) : bool :=
          && zll_eqb (k_out c) (map (fun win => let h := encode_kmer n (k_w c) win in
                                                h :: to_string (k_alpha c) n (k_w c) h) (all_windows c))
   | 7 => negb (k_err c) && rows_close (k_w c + 1) (k_out c) (get_motif_scores (k_cols c) (motif_rows c))
+  | 8 => negb (k_err c) && zll_eqb (k_out c) [count_weighted n (k_w c) (k_rows c) (k_pat c)]
+         && zll_eqb (k_labels c) (labels (k_alpha c) n (k_w c))
+  | 9 => negb (k_err c) && zll_eqb (k_out c) [big_counts n (k_rows c) (k_pat c)]
+         && zll_eqb (k_labels c) (labels (k_alpha c) n (k_w c))
   | _ => false
   end.
